@@ -413,6 +413,10 @@ def ev_bin(op, l, r, cx, ctx=-1):
 
 
 def ev_in(e, rl, cx):
+    if len(rl) == 0:
+        # the library treats membership in an empty (cleared) rangelist as 'no restriction';
+        # set theory says 'false': left open, never judged
+        raise RefError("membership in an empty rangelist")
     for item in rl:
         if isinstance(item, (list, tuple)):
             lo = item[0] if isinstance(item[0], dict) else {"t": "lit", "v": item[0]}
